@@ -10,6 +10,7 @@ Exit codes: 0 = property held on everything explored (KNOWN-FINDING lines may
 be printed), 1 = VIOLATION line(s) printed, 2 = harness / build trouble.
 """
 import argparse
+import fnmatch
 import array
 import hashlib
 import json
@@ -283,6 +284,17 @@ def search(prop, family, meta, tier, seed, workers, budget, binary, scratch, t0,
     known = [k for k in load_known() if k["property"] == prop]
     known_keys = {k["key"]: k for k in known if k.get("status") == "known"}
 
+    def known_key(cls):
+        """The known-findings key a violation class falls under: the class itself,
+        or a listed key with '*' wildcards (one finding whose discriminator spans
+        several sync modes / contexts)."""
+        if cls in known_keys:
+            return cls
+        for k in known_keys:
+            if "*" in k and fnmatch.fnmatchcase(cls, k):
+                return k
+        return None
+
     violations = []   # (class, replay path)
     known_hit = {}
     harness = list(trouble)
@@ -316,8 +328,8 @@ def search(prop, family, meta, tier, seed, workers, budget, binary, scratch, t0,
                        "class": cls, "message": what, "stderr_tail": (se2 or "")[-8000:].splitlines()},
                       open(path, "w"), indent=1)
             fail_counts[cls] = fail_counts.get(cls, 0) + 1
-            if cls in known_keys:
-                known_hit[cls] = what
+            if known_key(cls):
+                known_hit[known_key(cls)] = what
             elif not any(v[0] == cls and v[2] == what for v in violations):
                 violations.append((cls, path, what))
         else:
@@ -328,8 +340,8 @@ def search(prop, family, meta, tier, seed, workers, budget, binary, scratch, t0,
         cls = "%s/self-deadlock/%s" % (prop, desc.split(" <- ")[0])
         what = "a call blocks for ever on a mutex: %s (stack dump %s)" % (desc, dst)
         fail_counts[cls] = fail_counts.get(cls, 0) + 1
-        if cls in known_keys:
-            known_hit[cls] = what
+        if known_key(cls):
+            known_hit[known_key(cls)] = what
         elif not any(v[0] == cls for v in violations):
             path = os.path.join(replay_dir, "%s-%s-%d.json" % (prop, sanitize("self-deadlock-" + desc.split(" <- ")[0]), cur))
             json.dump({"property": prop, "family": family, "tier": tier, "seed": cur, "mode": "seed",
@@ -374,8 +386,8 @@ def search(prop, family, meta, tier, seed, workers, budget, binary, scratch, t0,
                     confirmed[c2] = rep
         for c2 in sorted(confirmed):
             rep = dict(confirmed[c2])
-            if c2 in known_keys:
-                known_hit[c2] = c2
+            if known_key(c2):
+                known_hit[known_key(c2)] = c2
                 continue
             rep["property"], rep["family"], rep["repo"] = prop, family, repo_describe()
             rep["class"] = rep["all_classes"][0]
@@ -390,8 +402,8 @@ def search(prop, family, meta, tier, seed, workers, budget, binary, scratch, t0,
         if cls.startswith("harness/"):
             harness.append("%s at seed %s: %s" % (cls, f["seed"], f["message"][:3000]))
             continue
-        if cls in known_keys:
-            known_hit[cls] = f["message"]
+        if known_key(cls):
+            known_hit[known_key(cls)] = f["message"]
             continue
         # unknown: minimise, then confirm by replaying in a fresh process
         case_path = os.path.join(scratch, "case-%s.json" % sanitize(cls))
